@@ -104,12 +104,12 @@ Proof.
   unfold rmask in *. rewrite E. reflexivity.
 Qed.
 
-Theorem judge_sound : forall server init evs streams,
-  C14_guard (KTrace server init evs streams) = true ->
+Theorem judge_sound : forall server init evs streams parts,
+  C14_guard (KTrace server init evs streams parts) = true ->
   trace_wf server init evs = true ->
-  agrees (KTrace server init evs streams) = true -> C14_ok (KTrace server init evs streams) = true.
+  agrees (KTrace server init evs streams parts) = true -> C14_ok (KTrace server init evs streams parts) = true.
 Proof.
-  intros server init evs streams Hg Hwf Ha.
+  intros server init evs streams parts Hg Hwf Ha.
   unfold agrees, agrees_gen, C14_ok, trace_wf in *. destruct (info_of server) as [info|]; [|discriminate].
   apply andb_prop in Hwf. destruct Hwf as [Hci Hce].
   unfold model_run, variant_of in Ha. cbn [get_filter_of live_of] in Ha.
